@@ -26,6 +26,8 @@ def width(t):
     t = (t or '').replace('const ', '').replace('volatile ', '').strip()
     if t in ('_Bool', 'bool'):
         return 1, False
+    if '*' in t or '&' in t:
+        return 64, False
     signed = not (t.startswith('u') or 'unsigned' in t or t in ('size_t',))
     if '64' in t or 'long' in t or t in ('size_t', 'ssize_t', 'ptrdiff_t'):
         return 64, signed
